@@ -307,101 +307,90 @@ pub(crate) mod u6 {
     }
 
     // ================================================================== Kani only
+    // Arbitrary-but-invariant worlds.  To stay inside CBMC's budget every Vec has a CONCRETE
+    // length when the operation starts and every object a CONCRETE kind; what is symbolic is
+    // the content of every field / stack slot / string register (scalar with arbitrary bits, or
+    // a pointer to any object of the world, or the static string), every colour bit, the
+    // collector state (Idle / Marking with any grey multiset / Sweeping at any index) and the
+    // pacing counters.  Template T1: heap_list = [Array(len 2), Struct(2 fields), Enum(1 field)],
+    // template T2: [Enum, Array(len 1), String, Struct(1 field)] ; operand stack of 3 slots.
     #[cfg(kani)]
     pub struct World {
         pub t: VmGreenThread,
-        pub objs: [*mut ObjectHeader; N],
+        pub objs: [*mut ObjectHeader; NMAX],
         pub n: usize,
         pub stat: *mut ObjectHeader,
     }
+    #[cfg(kani)]
+    pub const NMAX: usize = 4;
 
     #[cfg(kani)]
-    pub fn any_obj(t: &mut VmGreenThread) -> *mut ObjectHeader {
-        let z = Value::from(0 as AbraInt);
-        match kani::any::<u8>() {
-            0 => StructObject::new(vec![z, z], t) as *mut ObjectHeader,
-            1 => StructObject::new(vec![z], t) as *mut ObjectHeader,
-            2 => ArrayObject::new(vec![z, z], t) as *mut ObjectHeader,
-            3 => ArrayObject::new(vec![z], t) as *mut ObjectHeader,
-            4 => ArrayObject::new(vec![], t) as *mut ObjectHeader,
-            5 => EnumObject::new(kani::any(), z, t) as *mut ObjectHeader,
-            6 => StructObject::new(vec![], t) as *mut ObjectHeader,
-            _ => StringObject::new(String::from("a"), t) as *mut ObjectHeader,
-        }
-    }
-
-    #[cfg(kani)]
-    pub fn any_val(objs: &[*mut ObjectHeader; N], n: usize, stat: *mut ObjectHeader) -> Value {
+    pub fn any_val(objs: &[*mut ObjectHeader; NMAX], n: usize, stat: *mut ObjectHeader) -> Value {
         let c: u8 = kani::any();
         if (c as usize) < n {
             ptr_val(objs[c as usize])
         } else if c == 0xfe && !stat.is_null() {
             Value::from(stat as *mut StringObject)
         } else {
-            hs::any_scalar()
+            Value::from(kani::any::<AbraInt>())
         }
     }
 
-    /// Arbitrary heap of <= N objects (real constructors), arbitrary field contents, arbitrary
-    /// collector state, arbitrary stack of <= SMAX slots, optional static string.
     #[cfg(kani)]
-    pub fn any_world(with_static: bool) -> World {
+    pub fn any_world(template: u8, with_static: bool) -> World {
         let mut t = mk_thread(if with_static { vec![String::from("s")] } else { vec![] });
         let stat: *mut ObjectHeader =
             if with_static { t.shared.static_strings[0] as *mut ObjectHeader } else { std::ptr::null_mut() };
-        let n: usize = kani::any();
-        kani::assume(n <= N);
-        let mut objs: [*mut ObjectHeader; N] = [std::ptr::null_mut(); N];
+        let z = Value::from(0 as AbraInt);
+        let mut objs: [*mut ObjectHeader; NMAX] = [std::ptr::null_mut(); NMAX];
+        let n;
+        // real constructors, thread Idle: objects are born white and registered in heap_list
+        match template {
+            1 => {
+                objs[0] = ArrayObject::new(vec![z, z], &mut t) as *mut ObjectHeader;
+                objs[1] = StructObject::new(vec![z, z], &mut t) as *mut ObjectHeader;
+                objs[2] = EnumObject::new(kani::any(), z, &mut t) as *mut ObjectHeader;
+                n = 3;
+            }
+            2 => {
+                objs[0] = EnumObject::new(kani::any(), z, &mut t) as *mut ObjectHeader;
+                objs[1] = ArrayObject::new(vec![z], &mut t) as *mut ObjectHeader;
+                objs[2] = StringObject::new(String::from("a"), &mut t) as *mut ObjectHeader;
+                objs[3] = StructObject::new(vec![z], &mut t) as *mut ObjectHeader;
+                n = 4;
+            }
+            _ => {
+                objs[0] = ArrayObject::new(vec![z], &mut t) as *mut ObjectHeader;
+                objs[1] = EnumObject::new(kani::any(), z, &mut t) as *mut ObjectHeader;
+                n = 2;
+            }
+        }
         let mut i = 0;
-        while i < N {
-            if i < n {
-                objs[i] = any_obj(&mut t);
+        while i < n {
+            let k = fields(objs[i]).len();
+            let mut f = 0;
+            while f < k {
+                set_field(objs[i], f, any_val(&objs, n, stat));
+                f += 1;
             }
             i += 1;
         }
-        // fields
-        i = 0;
-        while i < N {
-            if i < n {
-                let k = fields(objs[i]).len();
-                let mut f = 0;
-                while f < k {
-                    set_field(objs[i], f, any_val(&objs, n, stat));
-                    f += 1;
-                }
-            }
-            i += 1;
-        }
-        // stack / locals
-        let sl: usize = kani::any();
-        kani::assume(sl <= SMAX);
-        i = 0;
-        while i < SMAX {
-            if i < sl {
-                t.value_stack.push(any_val(&objs, n, stat));
-            }
-            i += 1;
-        }
-        let base: usize = kani::any();
-        kani::assume(base <= sl);
-        t.stack_base = base;
+        t.value_stack = vec![any_val(&objs, n, stat), any_val(&objs, n, stat), any_val(&objs, n, stat)];
         t.string_operand1 = any_val(&objs, n, stat);
         t.string_operand2 = any_val(&objs, n, stat);
-        // collector state
         i = 0;
-        while i < N {
-            if i < n {
-                unsafe { (*objs[i]).visited = kani::any() };
-            }
+        while i < n {
+            unsafe { (*objs[i]).visited = kani::any() };
             i += 1;
         }
+        t.gray_stack = Vec::with_capacity(8);
         match kani::any::<u8>() {
             0 => t.gc_state = GcState::Idle,
             1 => {
                 t.gc_state = GcState::Marking;
                 i = 0;
-                while i < N {
-                    if i < n && kani::any() {
+                while i < n {
+                    if kani::any() {
                         t.gray_stack.push(objs[i]);
                     }
                     i += 1;
@@ -437,10 +426,8 @@ pub(crate) mod u6 {
 
     // ------------------------------------------------------------------ collector steps
     #[cfg(kani)]
-    #[kani::proof]
-    #[kani::unwind(__U__)]
-    fn process_gray_preserves_inv() {
-        let mut w = any_world(false);
+    fn process_gray_body(template: u8) {
+        let mut w = any_world(template, false);
         kani::assume(inv(&w.t));
         kani::assume(w.t.gc_state == GcState::Marking); // only call site: maybe_gc, Marking arm
         let mut batch: usize = kani::any();
@@ -449,5 +436,17 @@ pub(crate) mod u6 {
         kani::cover!(w.t.gc_state == GcState::Marking, "reachable: still Marking");
         assert!(inv(&w.t), "U6: Inv preserved by process_gray");
         std::mem::forget(w);
+    }
+    #[cfg(kani)]
+    #[kani::proof]
+    #[kani::unwind(__U__)]
+    fn process_gray_preserves_inv_t1() {
+        process_gray_body(1)
+    }
+    #[cfg(kani)]
+    #[kani::proof]
+    #[kani::unwind(__U__)]
+    fn process_gray_preserves_inv_t3() {
+        process_gray_body(3)
     }
 }
